@@ -14,10 +14,14 @@
      pkg/base/url.go            ParseURL / String / CloneWithoutCredentials -> parse / print / strip_cred
      pkg/base/request.go:129-150 request line               -> request_line
 
+   The model describes the code after fix commits d1622fe (findMediaByURL compares components) and
+   63de92a (ParseURL's escape regexp confined to the authority: on the alphabet below it is the
+   identity, and in particular it never touches the query any more).
+
    Strings are lists of byte values.  net/url is modelled on the alphabet that needs no
-   percent-decoding: unreserved | $&+,/:;=@ | !'()* | ?  ('%', '#', '[', ']', space and controls are
-   outside the model: the harness keeps such inputs away from the model and judges them with the
-   oracle only).  The five characters !'()* are the ones net/url accepts raw in a path but escapes
+   percent-decoding: unreserved | $&+,/:;=@ | !'()* | ? , plus '%' inside the raw query, which
+   net/url never decodes ('%' elsewhere, '#', '[', ']', space and controls are outside the model:
+   the harness keeps such inputs away from the model and judges them with the oracle only).  The five characters !'()* are the ones net/url accepts raw in a path but escapes
    by default, which is what makes RawPath non-empty; they are modelled (escape_path). *)
 From GVL Require Import NList Wire.
 Open Scope N_scope.
@@ -53,7 +57,15 @@ Definition path_plain (c : N) : bool :=
   unreserved c || (c =? 36) || (c =? 38) || (c =? 43) || (c =? 44) || (c =? 47) || (c =? 58)
   || (c =? 59) || (c =? 61) || (c =? 64).
 Definition path_char (c : N) : bool := path_plain c || is_special c.
-Definition query_char (c : N) : bool := path_char c || (c =? 63).
+(* the raw query is never decoded by net/url: '%' (37) may stand in it *)
+Definition query_char (c : N) : bool := path_char c || (c =? 63) || (c =? 37).
+(* Fidelity condition on a raw query.  ParseURL's escape regexp (pkg/base/url.go, after 63de92a) is
+   the identity on every string of the alphabet, except that its first, lazy group may still reach
+   into the query and find a second "://" there (x=a://b@c%20d): then the '%' behind that '@' is
+   rewritten.  A query that holds a '%' must therefore hold no ':' to be inside the model. *)
+Definition is_pct (c : N) : bool := c =? 37.
+Definition qcond (q : str) : bool := negb (existsb is_pct q) || forallb (fun x => negb (x =? c_colon)) q.
+
 (* user-info characters printed verbatim by net/url: unreserved $ & + , ; = and the one ':' *)
 Definition user_char (c : N) : bool :=
   unreserved c || (c =? 36) || (c =? 38) || (c =? 43) || (c =? 44) || (c =? 59) || (c =? 61) || (c =? 58).
@@ -254,15 +266,13 @@ Definition find_media_by_track_id (n : N) (tid : str) : mres :=
 Definition is_abs_control (c : str) : bool := has_prefix s_rtsp_pfx c || has_prefix s_rtsps_pfx c.
 
 (* findMediaByURL(medias, path, query, u): medias given by their control attributes.
-   url_hit = the body of the loop for one media *)
+   url_hit = the body of the loop for one media, as repaired by fix commit d1622fe: the components of
+   the request URL are compared (FFmpeg layout: control behind the query; GStreamer layout: behind the
+   path), no URL is re-printed any more except for absolute controls *)
 Definition url_hit (c pa q : str) (u : url) : bool :=
-  let us := print u in
-  if is_abs_control c then str_eqb c us else
-  let u1 := if negb (is_nil q)
-            then mkUrl (scheme u) None (host u) pa [] false (q ++ c_slash :: c)
-            else mkUrl (scheme u) None (host u) (pa ++ c_slash :: c) [] false q in
-  let u2 := mkUrl (scheme u) None (host u) (pa ++ c_slash :: c) [] false q in
-  str_eqb (print u1) us || str_eqb (print u2) us.
+  if is_abs_control c then str_eqb c (print u) else
+  (str_eqb (path u) pa && str_eqb (query u) (q ++ c_slash :: c))
+  || (str_eqb (path u) (pa ++ c_slash :: c) && str_eqb (query u) q).
 
 Fixpoint find_media_by_url_from (k : N) (controls : list str) (pa q : str) (u : url) : mres :=
   match controls with
@@ -417,10 +427,19 @@ Definition wf_url (u : url) : bool :=
   && negb (is_nil (host u)) && forallb host_char (host u) && valid_host (host u)
   && forallb path_char (path u) && (is_nil (path u) || first_is c_slash (path u))
   && str_eqb (rawpath u) (canon_rawpath (path u))
-  && forallb query_char (query u)
+  && forallb query_char (query u) && qcond (query u)
   && (negb (forceq u) || is_nil (query u)).
 
-Definition alphabet_ok (s : str) : bool := forallb query_char s.
+(* a string that is (or is appended to) a URL: no '%' before the first '?', raw query characters behind it *)
+Definition alphabet_ok (s : str) : bool :=
+  match cut c_qm s with
+  | None => forallb path_char s
+  | Some (a, b) => forallb path_char a && forallb query_char b && qcond b
+  end.
+(* a raw query on its own *)
+Definition query_ok (q : str) : bool := forallb query_char q && qcond q.
+(* the query part of a URL string *)
+Definition qpart_of (s : str) : str := match cut c_qm s with Some (_, b) => b | None => [] end.
 
 (* ---------- wire protocol ---------- *)
 Definition put_pair (p : str * str) : list N := putl (fst p) ++ putl (snd p).
@@ -484,7 +503,7 @@ Definition run (c : list N) : list N :=
   | 6 :: t =>
       match get2 t with
       | Some (s, ctl, []) =>
-          if negb (alphabet_ok s && alphabet_ok ctl) then out_of_model else
+          if negb (alphabet_ok s && alphabet_ok ctl && qcond (qpart_of s ++ ctl)) then out_of_model else
           match parse s with
           | POk b => if in_model b then put_ures (media_url ctl b) else out_of_model
           | _ => out_of_model
@@ -498,7 +517,7 @@ Definition run (c : list N) : list N :=
           | Some (s, r') =>
               match getls r' with
               | Some (ctls, []) =>
-                  if negb (alphabet_ok s && alphabet_ok pa && alphabet_ok q && forallb alphabet_ok ctls)
+                  if negb (alphabet_ok s && forallb path_char pa && query_ok q && forallb alphabet_ok ctls)
                   then out_of_model else
                   match parse s with
                   | POk u => if in_model u then put_mres (find_media_by_url ctls pa q u) else out_of_model
